@@ -5,59 +5,22 @@ From BCT Require Import Base.Mat Base.ListX Model.Rewire
 Import ListNotations.
 Open Scope Z_scope.
 
-(* the structure of a successful run *)
-Lemma run_routine_unfold r n R0 itr D s0 res :
-  run_routine r n R0 itr D s0 = Some res ->
-  exists s1 st0 k stf s2,
-    precheck r n R0 = true /\
-    init_state (if is_und r then ELtril else ELall) n (pre_matrix r n R0 (r_perm res)) = (st0, k) /\
-    (2 <= k)%nat /\
-    iterate (variant_of r n (match D with Some D' => D' | None => ring_dist n end)) k
-            (S (max_attempts (is_latt r && is_und r) n k)) (itr * k) st0 s1 [] = Some (stf, s2, r_trace res) /\
-    r_rp res = sR stf.
-Proof.
-  intros H. unfold run_routine in H.
-  destruct (precheck r n R0) eqn:Pc; cbn [negb] in H; [|discriminate].
-  unfold pre_matrix. destruct (is_latt r) eqn:L.
-  - destruct s0 as [|[z|q|l] s1]; try discriminate.
-    destruct (init_state _ n _) as [st0 k] eqn:Ei. destruct (Nat.ltb k 2) eqn:Ek; [discriminate|]. apply Nat.ltb_ge in Ek.
-    destruct (iterate _ _ _ _ _ _ _) as [[[stf s2] tr]|] eqn:It; [|discriminate].
-    inversion H; subst; cbn [r_perm r_trace r_rp]. exists s1, st0, k, stf, s2. auto.
-  - destruct (init_state _ n _) as [st0 k] eqn:Ei. destruct (Nat.ltb k 2) eqn:Ek; [discriminate|]. apply Nat.ltb_ge in Ek.
-    destruct (iterate _ _ _ _ _ _ _) as [[[stf s2] tr]|] eqn:It; [|discriminate].
-    inversion H; subst; cbn [r_perm r_trace r_rp]. exists s0, st0, k, stf, s2. auto.
-Qed.
-
-Lemma pre_matrix_und_ok r n R0 p :
-  (forall x y, R0 x y = R0 y x) -> (forall x, R0 x x = 0) ->
-  (forall x y, pre_matrix r n R0 p x y = pre_matrix r n R0 p y x) /\ (forall x, pre_matrix r n R0 p x x = 0).
-Proof.
-  intros Hs Hd. unfold pre_matrix. destruct (is_latt r); [|auto].
-  split; [apply tab_sym|apply tab_diag0]; unfold conj_perm; intros; auto.
-Qed.
-
 (* generic: a matrix property protected by the routine's guard holds in the final state and in every event *)
 Theorem run_routine_keeps r n R0 itr D s0 res (C : mat Z -> Prop) :
-  run_routine r n R0 itr D s0 = Some res ->
+  run_routine r n R0 itr D s0 = Done res ->
   (is_und r = true -> (forall x y, R0 x y = R0 y x) /\ (forall x, R0 x x = 0)) ->
   GuardSound (is_und r) n (v_guard (variant_of r n (match D with Some D' => D' | None => ring_dist n end))) C ->
   C (pre_matrix r n R0 (r_perm res)) ->
   C (r_rp res) /\ Forall (fun ev => C (sR (snd ev))) (r_trace res).
 Proof.
   intros H Hpre GS HC0.
-  destruct (run_routine_unfold _ _ _ _ _ _ _ H) as (s1 & st0 & k & stf & s2 & Pc & Ei & Ek & It & Erp).
+  destruct (run_routine_unfold _ _ _ _ _ _ _ H) as (s1 & st0 & k & stf & s2 & Pc & _ & Ei & _ & It & Erp & _ & _).
   set (R1 := pre_matrix r n R0 (r_perm res)) in *.
   set (v := variant_of r n (match D with Some D' => D' | None => ring_dist n end)) in *.
-  set (src := if is_und r then ELtril else ELall) in *.
-  assert (Es: st0 = fst (init_state src n R1) /\ k = snd (init_state src n R1)) by (rewrite Ei; auto).
-  destruct Es as [Es Ekk].
-  assert (HI0: Inv (is_und r) n k st0).
-  { rewrite Es, Ekk.
-    replace (is_und r) with (match src with ELall => false | _ => true end) by (unfold src; destruct (is_und r); reflexivity).
-    apply init_inv. intros Hsrc.
-    assert (U: is_und r = true) by (unfold src in Hsrc; destruct (is_und r); congruence).
-    destruct (Hpre U) as [Hs Hd]. apply pre_matrix_und_ok; assumption. }
-  assert (HR0: sR st0 = R1) by (rewrite Es; reflexivity).
+  destruct (run_init_inv r n R0 _ st0 k Hpre Ei) as [HI0 HR0]. fold R1 in HR0.
+  destruct (Nat.eq_dec k 0) as [K0|K0].
+  { subst k. rewrite iterate_k0 in It. injection It as E1 E2 E3. subst stf. rewrite <- E3, Erp, HR0.
+    split; [exact HC0|apply Forall_nil]. }
   set (J := fun st : state => Inv (v_und v) n k st /\ C (sR st)).
   assert (Jstep: forall st s st' s' o, J st -> attempt v k st s = Some (st', s', o) -> J st').
   { intros st s st' s' o [A B] At. split.
@@ -120,7 +83,7 @@ Qed.
 (* connectivity of every state of a `_connected` run, given a connected (strongly connected) input with empty diagonal *)
 Theorem run_connected r n R0 itr D s0 res :
   is_conn r = true ->
-  run_routine r n R0 itr D s0 = Some res ->
+  run_routine r n R0 itr D s0 = Done res ->
   (is_und r = true -> forall x y, R0 x y = R0 y x) -> (forall x, R0 x x = 0) ->
   (is_latt r = true -> Permutation (r_perm res) (seq 0 n)) ->
   connected n R0 ->
@@ -143,7 +106,7 @@ Qed.
 (* lattice cost: never above the cost of the matrix latticisation started from, for the D in use *)
 Theorem run_lattice_cost r n R0 itr D s0 res :
   is_latt r = true ->
-  run_routine r n R0 itr D s0 = Some res ->
+  run_routine r n R0 itr D s0 = Done res ->
   (is_und r = true -> (forall x y, R0 x y = R0 y x) /\ (forall x, R0 x x = 0)) ->
   let Dm := match D with Some D' => D' | None => ring_dist n end in
   (is_und r = true -> forall x y, Dm x y = Dm y x) ->
@@ -161,27 +124,28 @@ Proof. unfold ring_dist. rewrite Nat.min_comm. reflexivity. Qed.
 
 (* mask: no connection is ever created where the (symmetric) mask is nonzero *)
 Theorem run_partial_mask n A B maxswap s0 res :
-  run_partial_und n A B maxswap s0 = Some res ->
+  run_partial_und n A B maxswap s0 = Done res ->
   (forall x y, A x y = A y x) -> (forall x, A x x = 0) -> (forall x y, B x y = B y x) ->
   MaskOK A B (r_out res) /\ Forall (fun ev => MaskOK A B (sR (snd ev))) (r_trace res).
 Proof.
-  intros H Hs Hd HBs. unfold run_partial_und in H.
-  destruct (init_state ELtriu1 n A) as [st0 k] eqn:Ei.
-  destruct (Nat.ltb k 2) eqn:Ek; [discriminate|]. apply Nat.ltb_ge in Ek.
-  destruct (until_swaps _ k (length s0) maxswap st0 s0 []) as [[[stf s2] tr]|] eqn:It; [|discriminate].
-  inversion H; subst res; clear H. cbn [r_out r_trace].
+  intros H Hs Hd HBs.
+  destruct (run_partial_unfold _ _ _ _ _ _ H) as (st0 & k & stf & s2 & Ei & Ek & It & Eo).
   assert (Es: st0 = fst (init_state ELtriu1 n A) /\ k = snd (init_state ELtriu1 n A)) by (rewrite Ei; auto).
   destruct Es as [Es Ekk].
   assert (HI0: Inv true n k st0) by (rewrite Es, Ekk; apply (init_inv ELtriu1 n A); intros _; split; assumption).
   assert (HR0: sR st0 = A) by (rewrite Es; reflexivity).
+  assert (M0: MaskOK A B A) by (intros x y E N; contradiction).
+  destruct Ek as [Ek|Ek].
+  2:{ subst maxswap. assert (It': Some (st0, s0, @nil event) = Some (stf, s2, r_trace res)).
+      { rewrite <- It. destruct (length s0); reflexivity. }
+      injection It' as E1 E2 E3. subst stf. rewrite <- E3, Eo, HR0. split; [exact M0|apply Forall_nil]. }
   set (v := mkvar true (mask_guard B)) in *.
   set (J := fun st : state => Inv true n k st /\ MaskOK A B (sR st)).
   assert (Jstep: forall st s st' s' o, J st -> attempt v k st s = Some (st', s', o) -> J st').
   { intros st s st' s' o [X Y] At. split.
-    - apply (attempt_spec v n k st s st' s' o ltac:(lia) X At).
-    - apply (attempt_keeps v n k st s st' s' o (MaskOK A B) ltac:(lia) (mask_GuardSound n A B HBs) X Y At). }
-  assert (J0: J st0).
-  { split; [exact HI0|]. rewrite HR0. intros x y E N. contradiction. }
+    - apply (attempt_spec v n k st s st' s' o Ek X At).
+    - apply (attempt_keeps v n k st s st' s' o (MaskOK A B) Ek (mask_GuardSound n A B HBs) X Y At). }
+  assert (J0: J st0) by (split; [exact HI0|rewrite HR0; exact M0]).
   destruct (until_J v k J Jstep _ _ _ _ _ _ _ _ J0 (Forall_nil _) It) as [[_ B1] B2].
-  split; [exact B1|]. eapply Forall_impl; [|exact B2]. intros ev [_ X]. exact X.
+  split; [rewrite Eo; exact B1|]. eapply Forall_impl; [|exact B2]. intros ev [_ X]. exact X.
 Qed.
